@@ -6,7 +6,7 @@
               same ice / palette / font mode.  The caret font page and the selection mask are not part of it
               (like current layer, selection and caret position in eqv). *)
 From Coq Require Import List ZArith NArith Bool Arith Lia.
-From IE Require Import Lib.C08Lib Gen.UndoGen Model.Undo Model.EditModel Model.EditOps Model.DocModel
+From IE Require Import Lib.C08Lib Gen.UndoGen Model.Undo Model.EditModel Model.EditOps Model.DocModel Model.DocOps
   Proofs.UndoProofs Proofs.LayerProofs Proofs.EditProofs.
 Import ListNotations.
 Local Open Scope Z_scope.
@@ -85,12 +85,6 @@ Local Notation BUndoable := (Undoable op_undo op_redo eqv).
 Local Notation BRedoable := (Redoable op_undo op_redo eqv).
 
 (* ------------------------------------------------------------------ lifting: the records of EditModel inside the full document *)
-Fixpoint xfop (o : fop uop) : fop xuop :=
-  match o with
-  | Leaf u => Leaf (XB u)
-  | Atomic l => Atomic (map xfop l)
-  end.
-
 Section FopInd.
   Variable P : fop uop -> Prop.
   Hypothesis HL : forall u, P (Leaf u).
